@@ -8,7 +8,8 @@ import (
 )
 
 // C03 oracle (model-free): Parse terminates and does not panic, on every generated input (stream C03-tok);
-// every entry point agrees on it, on every call (stream C03-entry, oracle_c03_entry.go).
+// every entry point agrees on it, on every call (stream C03-entry, oracle_c03_entry.go); the same over the whole
+// byte range - NUL, control bytes, bytes >= 0x80 - in every scanner state (stream C03-bytes, oracle_c03_bytes.go).
 func init() {
 	oracles["C03"] = func(cfg Config) []*Report {
 		rep := NewReport("C03", "C03-tok", cfg)
@@ -47,6 +48,8 @@ func init() {
 		}
 		genParseInputs(cfg, check)
 		enumTexts(cfg.N(5, 7), check)
-		return []*Report{rep, c03EntryStream(cfg)}
+		e := c03EntryStart(cfg)
+		bytes := c03BytesStream(cfg, e) // last: it ends the run at its first hang (see oracle_c03_bytes.go)
+		return []*Report{rep, e.rep, bytes}
 	}
 }
